@@ -299,9 +299,26 @@ def model_seconds(c):
     return 1.4e-8 * n * n + 1e-7 * longest * longest
 
 
-def within_budget(cases, budget, seed):
+# operation keyword of the case language -> name of the function it enters, where the two differ
+OP_FN = {"eq_slice": "eq", "eq_buf": "eq", "eq_self": "eq", "eq_array": "eq", "ne": "eq", "debug": "fmt", "iter_debug": "fmt",
+         "iter_mut_debug": "fmt", "drain_debug": "fmt", "into_iter_debug": "fmt", "cmp": "cmp", "partial_cmp": "partial_cmp",
+         "clone_keep": "clone", "from_array": "from", "extend_ref": "extend", "index": "index", "get_mut": "get_mut",
+         "iter_default": "default", "iter_mut_default": "default", "ref_into_iter": "into_iter", "boxed": "boxed"}
+
+
+def enters_changed(c, affected):
+    for o in c.ops:
+        t = o.split(" ", 1)[0]
+        if OP_FN.get(t, t) in affected:
+            return True
+    return False
+
+
+def within_budget(cases, budget, seed, affected=()):
     """The steered search runs whole families at capacities and lengths in the thousands. Keep every cheap case and a
-    seeded subsample of the expensive ones (> 20 ms) such that their estimated model time stays within [budget]."""
+    seeded subsample of the expensive ones (> 20 ms) such that their estimated model time stays within [budget];
+    cases that enter a function whose text changed (directly or through its callees) are served first, with
+    two thirds of the budget."""
     costly = [(c, model_seconds(c)) for c in cases]
     costly = [(c, t) for (c, t) in costly if t > 0.02]
     total = sum(t for _, t in costly)
@@ -310,11 +327,22 @@ def within_budget(cases, budget, seed):
     import cases as C
     r = C.Rng(seed * 31 + 5)
     scale = 1 << 30
-    drop = set(id(c) for (c, _) in costly if r.below(scale) >= int(scale * budget / total))
+    first = [(c, t) for (c, t) in costly if affected and enters_changed(c, affected)]
+    rest = [(c, t) for (c, t) in costly if not (affected and enters_changed(c, affected))]
+    drop = set()
+    b1 = budget * 2 / 3 if rest else budget
+    t1 = sum(t for _, t in first)
+    if t1 > b1:
+        drop |= set(id(c) for (c, _) in first if r.below(scale) >= int(scale * b1 / t1))
+        t1 = b1
+    b2 = max(budget - t1, 0.0)
+    t2 = sum(t for _, t in rest)
+    if t2 > b2:
+        drop |= set(id(c) for (c, _) in rest if r.below(scale) >= int(scale * b2 / t2))
     return [c for c in cases if id(c) not in drop]
 
 
-def run_plan(plan, tier, seed, wd, extra_cfgs=(), budget=None):
+def run_plan(plan, tier, seed, wd, extra_cfgs=(), budget=None, affected=()):
     """runs the correspondence + oracle part; returns results per configuration"""
     ok, driver = E.build_driver()
     if not ok:
@@ -328,7 +356,7 @@ def run_plan(plan, tier, seed, wd, extra_cfgs=(), budget=None):
         dbg = E.CONFIGS[cfg][3]
         cases = plan.gen_cfg(tier, seed, cfg) if hasattr(plan, "gen_cfg") else plan.gen(tier, seed)
         if budget:
-            cases = within_budget(cases, budget, seed)
+            cases = within_budget(cases, budget, seed, affected)
         parsed = E.run_both(cases, dbg, driver, harness, os.path.join(wd, cfg), unst=cfg.startswith("unstable"))
         ofail, cfail, stats = compare(plan, cases, parsed, dbg)
         results.append({"cfg": cfg, "cases": cases, "ofail": ofail, "cfail": cfail, "stats": stats,
@@ -483,12 +511,16 @@ def main():
                 # quick tier with a changed source text: the quick density at the steered capacities (minutes);
                 # otherwise the thorough case space
                 wide_tier = "quick" if (tier == "quick" and not fp_ok and proofs_ok and corr_ok) else "thorough"
+                try:
+                    affected = srcfp.affected_names(fp.get("changed", [])) if not fp_ok else ()
+                except Exception:
+                    affected = ()
                 # a changed function that only exists in a feature-gated build is searched in that build as well
                 xcfg = []
                 if any("@unstable" in n for n in fp.get("changed", [])) and plan.spec is not None and pid != "C16":
                     xcfg.append("unstable")
                 wide = run_plan(plan, wide_tier, seed + 7919, os.path.join(wd, "wide"), extra_cfgs=xcfg,
-                                budget=(WIDE_BUDGET if steer else None))
+                                budget=(WIDE_BUDGET if steer else None), affected=affected)
                 for r in wide:
                     if r.get("ofail"):
                         found = (r, r["ofail"][0])
